@@ -1,7 +1,9 @@
 package json
 
 import (
+	"fmt"
 	"reflect"
+	"runtime"
 
 	"github.com/goccy/go-json/internal/decoder"
 )
@@ -79,6 +81,17 @@ func (p *Path) Unmarshal(data []byte, v interface{}, optFuncs ...DecodeOptionFun
 }
 
 // Get extract and substitute the value of the part corresponding to JSON Path from the input value.
-func (p *Path) Get(src, dst interface{}) error {
+func (p *Path) Get(src, dst interface{}) (err error) {
+	// the selected part is converted to the type of dst by reflection; what
+	// reflection refuses ( a value that cannot be set or is not assignable )
+	// is an error of this call
+	defer func() {
+		if r := recover(); r != nil {
+			if _, isRuntime := r.(runtime.Error); isRuntime {
+				panic(r)
+			}
+			err = fmt.Errorf("json: failed to get the value of the path: %v", r)
+		}
+	}()
 	return p.path.Get(reflect.ValueOf(src), reflect.ValueOf(dst))
 }
